@@ -17,22 +17,24 @@ extern "C" int __lsan_do_recoverable_leak_check(void) __attribute__((weak));
 using namespace pbt;
 
 // ---------------------------------------------------------------- stdio fault injection (link-time wrap)
-static long g_io_calls = 0, g_io_fail_at = -1;   // counts fwrite/fflush/fclose calls made by carquet while armed
+static long g_io_calls = 0, g_io_fail_at = -1, g_io_fail_from = -1;   // fail_from >= 0: every stream call from that index on fails (a sink that stays broken)
+static bool failNow(long me) { return me == g_io_fail_at || (g_io_fail_from >= 0 && me >= g_io_fail_from); }
+// g_io_calls counts fwrite/fflush/fclose calls made by carquet while armed
 static bool g_io_armed = false, g_io_hit = false;
 extern "C" {
 size_t __real_fwrite(const void *, size_t, size_t, FILE *);
 int __real_fflush(FILE *);
 int __real_fclose(FILE *);
 size_t __wrap_fwrite(const void *p, size_t sz, size_t n, FILE *f) {
-  if (g_io_armed) { long me = g_io_calls++; if (me == g_io_fail_at) { g_io_hit = true; errno = ENOSPC; return 0; } }
+  if (g_io_armed) { long me = g_io_calls++; if (failNow(me)) { g_io_hit = true; errno = ENOSPC; return 0; } }
   return __real_fwrite(p, sz, n, f);
 }
 int __wrap_fflush(FILE *f) {
-  if (g_io_armed) { long me = g_io_calls++; if (me == g_io_fail_at) { g_io_hit = true; errno = ENOSPC; return EOF; } }
+  if (g_io_armed) { long me = g_io_calls++; if (failNow(me)) { g_io_hit = true; errno = ENOSPC; return EOF; } }
   return __real_fflush(f);
 }
 int __wrap_fclose(FILE *f) {
-  if (g_io_armed) { long me = g_io_calls++; if (me == g_io_fail_at) { g_io_hit = true; __real_fclose(f); errno = ENOSPC; return EOF; } }
+  if (g_io_armed) { long me = g_io_calls++; if (failNow(me)) { g_io_hit = true; __real_fclose(f); errno = ENOSPC; return EOF; } }
   return __real_fclose(f);
 }
 }
@@ -204,6 +206,20 @@ static Verdict runAbort(const K &k) {
     PBT_CHECK(vd, !exists, "carquet_writer_abort after %ld of %ld calls leaves the file %s behind", n, total, ctl.path.c_str());
     int fds1 = openFds();
     PBT_CHECK(vd, fds0 == fds1, "carquet_writer_abort after %ld calls: %d descriptors open before create, %d after abort", n, fds0, fds1);
+    // the same abort while the sink is broken: every stream operation issued by the abort itself fails
+    {
+      evals++;
+      cw::WriteCtl c2; c2.abort_after = n;
+      g_io_calls = 0; g_io_fail_at = -1; g_io_fail_from = -1; g_io_hit = false; g_io_armed = true;
+      c2.before_abort = []() { g_io_fail_from = g_io_calls; };
+      cw::runHistory(k.w, lv, c2);
+      g_io_armed = false; g_io_fail_from = -1;
+      bool ex2 = !c2.path.empty() && stat(c2.path.c_str(), &sb) == 0;
+      if (ex2) unlink(c2.path.c_str());
+      PBT_CHECK(vd, !ex2, "carquet_writer_abort after %ld of %ld calls on a sink whose flush/close fails leaves the file %s behind", n, total, c2.path.c_str());
+      int fds2 = openFds();
+      PBT_CHECK(vd, fds0 == fds2, "carquet_writer_abort on a failing sink after %ld calls: %d descriptors open before create, %d after abort", n, fds0, fds2);
+    }
   }
   if (__lsan_do_recoverable_leak_check) PBT_CHECK(vd, __lsan_do_recoverable_leak_check() == 0, "memory leaked by a writer that was aborted (LeakSanitizer report above)");
   vd.evals = std::max<long>(1, evals); vd.nontrivial = total >= 2;
